@@ -101,11 +101,7 @@ int32_t jls_raw_wr_payload(struct jls_raw_s * self, uint32_t payload_length, con
     if (!payload || payload_length > ST_PMAX || payload_length != st_hdr[k].payload_length) {
         return JLS_ERROR_PARAMETER_INVALID;
     }
-    for (unsigned i = 0; i < ST_PMAX; ++i) {
-        if (i < payload_length) {
-            st_pay[k][i] = payload[i];
-        }
-    }
+    memcpy(st_pay[k], payload, payload_length);
     if (k + 1 == (int) st_n) {
         st_last_payload_length = payload_length;
     } else {
@@ -163,11 +159,7 @@ int32_t jls_raw_rd(struct jls_raw_s * self, struct jls_chunk_header_s * hdr, uin
     if (st_on_disk(st_hdr[k].payload_length) > payload_length_max) {
         return JLS_ERROR_TOO_BIG;
     }
-    for (unsigned i = 0; i < ST_PMAX; ++i) {
-        if (i < st_hdr[k].payload_length) {
-            payload[i] = st_pay[k][i];
-        }
-    }
+    memcpy(payload, st_pay[k], st_hdr[k].payload_length);
     st_pos = ST_BASE + (int64_t) ST_STRIDE * (k + 1);
     return 0;
 }
